@@ -179,7 +179,7 @@ func (w *worker) runOne(h hostileInput) (res *wResult, viol *run.Outcome, dead b
 		_, top, excerpt := fatalSummary(w.errlog)
 		wit["crash_excerpt"] = excerpt
 		if cpu >= cpuBudgetMs*time.Millisecond {
-			return nil, &run.Outcome{V: run.Violated, Class: "hang:" + stage + ":" + top, Reason: fmt.Sprintf("%s (%s): no result after %ds wall and %.0fs CPU in stage %s at %s", h.ID, h.Kind, wallKillSecs, cpu.Seconds(), stage, top), Witness: wit}, true
+			return nil, &run.Outcome{V: run.Violated, Class: "hang", Reason: fmt.Sprintf("%s (%s): no result after %ds wall and %.0fs CPU in stage %s at %s", h.ID, h.Kind, wallKillSecs, cpu.Seconds(), stage, top), Witness: wit}, true
 		}
 		return nil, &run.Outcome{V: run.Inconclusive, Reason: "wall-clock watchdog fired with little CPU consumed (machine load)"}, true
 	}
